@@ -191,6 +191,70 @@ func c01Subnet(c *Ctx, r *Report) {
 		r.check(len(problems) == 0, "C01.R8.subnet-family", construct, c.pos(mk.Pos()), fmt.Sprintf("both bounded by %d", 8*l), "%s", strings.Join(problems, "; "))
 	})
 	if n == 0 {
+		// one branch for both families: the address is made with a length chosen by the family (4 or 16, nothing
+		// else), and netmask and scope are bounded by eight times that same value
+		allInstrs(fn, func(in ssa.Instruction) {
+			mk, ok := in.(*ssa.MakeSlice)
+			if !ok {
+				return
+			}
+			widths := map[int64]bool{}
+			for _, l := range phiLeaves(mk.Len) {
+				k, isK := constIntOf(l)
+				if !isK {
+					return
+				}
+				widths[k] = true
+			}
+			if len(widths) != 2 || !widths[4] || !widths[16] {
+				return
+			}
+			var problems []string
+			for _, field := range []string{"SourceNetmask", "SourceScope"} {
+				found := false
+				for _, f := range factsAt(fn, mk.Block()) {
+					b, ok := f.Atom.(*ssa.BinOp)
+					if !ok {
+						continue
+					}
+					x, y, holds := b.X, b.Y, f.Holds
+					switch b.Op {
+					case token.GTR:
+					case token.LEQ:
+						holds = !holds
+					default:
+						continue
+					}
+					if holds || !anyIn(sliceOf(x), readsField("EDNS0_SUBNET", field)) {
+						continue
+					}
+					yy := y
+					for {
+						cv, isCv := yy.(*ssa.Convert)
+						if !isCv {
+							break
+						}
+						yy = cv.X
+					}
+					if m, isMul := yy.(*ssa.BinOp); isMul && m.Op == token.MUL {
+						k1, isK1 := constIntOf(m.Y)
+						k2, isK2 := constIntOf(m.X)
+						if isK1 && k1 == 8 && sameExpr(m.X, mk.Len) || isK2 && k2 == 8 && sameExpr(m.Y, mk.Len) {
+							found = true
+						}
+					}
+				}
+				if !found {
+					problems = append(problems, fmt.Sprintf("%s is not bounded by 8 x the address length the branch allocates", field))
+				}
+			}
+			for _, l := range []int64{4, 16} {
+				n++
+				r.check(len(problems) == 0, "C01.R8.subnet-family", fmt.Sprintf("EDNS0_SUBNET.unpack:family-%d-octets", l), c.pos(mk.Pos()), "both bounded by 8 x the width chosen by the family", "%s", strings.Join(problems, "; "))
+			}
+		})
+	}
+	if n == 0 {
 		r.fail("C01.R8.subnet-family", "EDNS0_SUBNET.unpack", c.pos(fn.Pos()), "no per-family address allocation found")
 	}
 	_ = ssa.Value(nil)
